@@ -33,3 +33,64 @@ Proof. destruct r; reflexivity. Qed.
 Lemma scope_of_push x d v r : scope_of (push_binding x d v r) = push_s x d (scope_of r).
 Proof. destruct r; reflexivity. Qed.
 
+
+(* ---------------------------------------------------------------------------------------------------------- *)
+(* More fuel never changes an outcome that was not OutOfFuel *)
+
+Lemma bind_cong {A B} (m m2 : outcome A) (k k2 : env -> A -> outcome B) :
+  (m <> OutOfFuel -> m2 = m) ->
+  (forall r a, k r a <> OutOfFuel -> k2 r a = k r a) ->
+  bind m k <> OutOfFuel -> bind m2 k2 = bind m k.
+Proof.
+  intros Hm Hk H. destruct m as [o r a|o e|]; simpl in *.
+  - rewrite Hm by discriminate. simpl. rewrite Hk; auto.
+    intros E. rewrite E in H. congruence.
+  - rewrite Hm by discriminate. reflexivity.
+  - congruence.
+Qed.
+
+Ltac mono_step :=
+  match goal with
+  | H : bind ?m ?k <> OutOfFuel |- bind ?m2 ?k2 = bind ?m ?k =>
+      apply (bind_cong m m2 k k2);
+      [ solve [auto] | let r := fresh "r" in let a := fresh "a" in let Hk := fresh "Hk" in
+                       intros r a Hk; cbv beta in Hk |- * | exact H ]
+  | |- ?x = ?x => reflexivity
+  | H : match ?v with _ => _ end <> OutOfFuel |- _ => destruct v; try reflexivity; try (exfalso; apply H; reflexivity)
+  | H : (if ?c then _ else _) <> OutOfFuel |- _ => destruct c; try reflexivity
+  end.
+
+Section Mono.
+  Variable funs : list fundef.
+
+  Definition mono_at f :=
+    (forall r e, eval_expr funs f r e <> OutOfFuel -> eval_expr funs (S f) r e = eval_expr funs f r e) /\
+    (forall r es, eval_args funs f r es <> OutOfFuel -> eval_args funs (S f) r es = eval_args funs f r es) /\
+    (forall r bl, eval_block funs f r bl <> OutOfFuel -> eval_block funs (S f) r bl = eval_block funs f r bl) /\
+    (forall r s, exec_stmt funs f r s <> OutOfFuel -> exec_stmt funs (S f) r s = exec_stmt funs f r s).
+
+  Lemma eval_mono_step : forall f, mono_at f.
+  Proof.
+    induction f as [|f [IHe [IHa [IHb IHs]]]].
+    { repeat split; intros r x H; simpl in H; congruence. }
+    assert (G : forall f1, f1 = S f -> 
+      (forall r e, eval_expr funs (S f) r e <> OutOfFuel -> eval_expr funs (S f1) r e = eval_expr funs (S f) r e) /\
+      (forall r es, eval_args funs (S f) r es <> OutOfFuel -> eval_args funs (S f1) r es = eval_args funs (S f) r es) /\
+      (forall r bl, eval_block funs (S f) r bl <> OutOfFuel -> eval_block funs (S f1) r bl = eval_block funs (S f) r bl) /\
+      (forall r s, exec_stmt funs (S f) r s <> OutOfFuel -> exec_stmt funs (S f1) r s = exec_stmt funs (S f) r s)).
+    { intros f1 Ef1. rewrite <- Ef1 in IHe, IHa, IHb, IHs.
+      repeat split.
+      - intros r e H. destruct e; simpl in H |- *; repeat mono_step.
+      - intros r es H. destruct es; simpl in H |- *; repeat mono_step.
+      - intros r bl H. destruct bl as [|s [|s2 rest]]; simpl in H |- *; repeat mono_step; auto.
+      - intros r s H. destruct s; simpl in H |- *; repeat mono_step; auto. }
+    exact (G (S f) eq_refl).
+  Qed.
+
+  Lemma eval_block_mono f f' r bl :
+    f <= f' -> eval_block funs f r bl <> OutOfFuel -> eval_block funs f' r bl = eval_block funs f r bl.
+  Proof.
+    induction 1 as [|f' Hle IH]; auto. intros H.
+    destruct (eval_mono_step f') as [_ [_ [Hb _]]]. rewrite Hb; rewrite IH; auto.
+  Qed.
+End Mono.
